@@ -421,6 +421,7 @@ impl<K: KeyT> SetWorld<K> {
             Kd::Extend | Kd::FromIter => self.op_extend(si, op)?,
             Kd::Clear => self.op_clear(si, op)?,
             Kd::Reserve | Kd::ShrinkTo | Kd::ShrinkToFit => self.op_capacity(si, op)?,
+            Kd::TryReserve => self.op_try_reserve(si, op)?,
             Kd::Retain => self.op_retain(si, op)?,
             Kd::ExtractIf => self.op_extract_if(si, op)?,
             Kd::Drain => self.op_drain(si, op)?,
@@ -881,6 +882,75 @@ impl<K: KeyT> SetWorld<K> {
                 drop(fresh);
                 if size1 > fs {
                     vio!(self, "cap/shrink-not-tight", "{:?}({mreq}) leaves {size1} bytes, a fresh with_capacity({}) needs {fs}", op.k, len.max(mreq));
+                }
+            }
+        }
+        Ok(())
+    }
+
+    fn op_try_reserve(&mut self, si: usize, op: &Op) -> VResult {
+        let n = op.a as u64 as usize;
+        let fc = self.fctx(si, op);
+        let (len, cap0, size0) = {
+            let s = self.set(si);
+            (s.len(), s.capacity(), s.allocation_size())
+        };
+        let d0 = hashbrown::verif::dump_set(self.set(si));
+        let blocks0 = sim().blocks.len();
+        let dropped0 = sim().dropped;
+        let s = self.slots[si].set.as_mut().unwrap();
+        let out = self.ctx.call(op, || s.try_reserve(n));
+        let r = match out {
+            Out::Panic(msg) => vio!(self, "tryreserve/panic", "try_reserve({n}) panicked: {msg}"),
+            o => {
+                let Some(r) = self.settle(o, si, fc)? else { return Ok(()) };
+                r
+            }
+        };
+        let esz = std::mem::size_of::<K>() as u128;
+        let need = len as u128 + n as u128;
+        match r {
+            Ok(()) => {
+                sim().probe(Probe::TryReserveOk);
+                let cap1 = self.set(si).capacity();
+                if (cap1 as u128) < need {
+                    vio!(self, "tryreserve/ok-too-small", "try_reserve({n}) returned Ok but capacity()={cap1} < len()+additional={need}");
+                }
+                if need * esz.max(1) > isize::MAX as u128 {
+                    vio!(self, "tryreserve/ok-impossible", "try_reserve({n}) returned Ok for an unrepresentable size");
+                }
+            }
+            Err(ref e) => {
+                match *e {
+                    hashbrown::TryReserveError::CapacityOverflow => {
+                        sim().probe(Probe::CapacityOverflow);
+                        if need.saturating_mul(esz + 1).saturating_mul(4) < (isize::MAX as u128) / 4 {
+                            vio!(self, "tryreserve/spurious-overflow", "try_reserve({n}) with len {len}, element size {esz} reported CapacityOverflow although the size is comfortably representable");
+                        }
+                    }
+                    hashbrown::TryReserveError::AllocError { ref layout } => {
+                        sim().probe(Probe::RefusedAlloc);
+                        if need * esz > isize::MAX as u128 {
+                            vio!(self, "tryreserve/alloc-for-unrepresentable", "try_reserve({n}) cannot be represented, yet the allocator was asked for {:?}", self.ctx.last_refused_layout);
+                        }
+                        if self.ctx.last_refused == 0 {
+                            vio!(self, "tryreserve/phantom-allocerror", "try_reserve({n}) reported AllocError but the allocator refused nothing");
+                        }
+                        if self.ctx.last_refused_layout != Some((layout.size(), layout.align())) {
+                            vio!(self, "tryreserve/wrong-layout", "AllocError carries layout {:?}, the allocator refused {:?}", (layout.size(), layout.align()), self.ctx.last_refused_layout);
+                        }
+                    }
+                }
+                let d1 = hashbrown::verif::dump_set(self.set(si));
+                let s = self.set(si);
+                if d1 != d0 || s.len() != len || s.capacity() != cap0 || s.allocation_size() != size0 {
+                    vio!(self, "tryreserve/err-changed-state", "a failed try_reserve({n}) changed the set");
+                }
+                if sim().blocks.len() != blocks0 {
+                    vio!(self, "tryreserve/err-leak", "a failed try_reserve({n}) changed the number of live blocks");
+                }
+                if sim().dropped != dropped0 {
+                    vio!(self, "tryreserve/err-dropped", "a failed try_reserve({n}) dropped elements");
                 }
             }
         }
